@@ -118,18 +118,23 @@ def iterSpan (eoi : Nat × Nat) (a b : IterCursor) : Nat × Nat :=
     | some s => (s, match b.lastEnd with | some e => e | none => eoi.2)
     | none => (eoi.2, eoi.2)
 
-/-- schedule replay for `IterInput` that also asks, after every call, for the span from the cursor the call started at
-    and from the very first cursor to the cursor the call produced (`span_since` after a match / at a failure) -/
+/-- schedule replay for `IterInput` that also asks, after every call, for the span from the cursor the call started at and
+    from the very first cursor to the cursor the call produced (`span_since` after a match / at a failure), for the empty
+    match at that cursor, and again for the (start, end) pair of an OLDER call (a capture computed after the parser has
+    looked further ahead and come back) -/
 def replayIterSpans (eoi : Nat × Nat) (c0 : IterCursor) :
-    List Nat → List IterCursor → List (Nat × Option Nat × (Nat × Nat) × (Nat × Nat) × (Nat × Nat))
-  | [], _ => []
-  | k :: ks, cus =>
+    List Nat → List IterCursor → List (IterCursor × IterCursor) →
+      List (Nat × Option Nat × (Nat × Nat) × (Nat × Nat) × (Nat × Nat) × (Nat × Nat))
+  | [], _, _ => []
+  | k :: ks, cus, pairs =>
     match cus[k % cus.length]? with
     | none => []
     | some cu =>
       let r := iterNext () cu
-      (cu.idx, r.1, iterSpan eoi cu r.2.2, iterSpan eoi c0 r.2.2, iterSpan eoi r.2.2 r.2.2) ::
-        replayIterSpans eoi c0 ks (cus ++ [r.2.2])
+      let pairs' := pairs ++ [(cu, r.2.2)]
+      let old := pairs'.getD ((k * 7 + 3) % pairs'.length) (cu, r.2.2)
+      (cu.idx, r.1, iterSpan eoi cu r.2.2, iterSpan eoi c0 r.2.2, iterSpan eoi r.2.2 r.2.2, iterSpan eoi old.1 old.2) ::
+        replayIterSpans eoi c0 ks (cus ++ [r.2.2]) pairs'
 
 /-! ### `IoInput`: a seekable reader that remembers where it last read -/
 
